@@ -47,13 +47,13 @@ def showResult : Result → String
 def bystander : File := { content := [98, 121], mode := 0o644 }
 
 def showState (d : Dir) : String :=
-  let target := match d.get "target" with
+  let target := match d.get "target".toList with
     | some f => s!"{encHex f.content}:{octal f.mode}"
     | none => "none"
-  let others := d.names.filter fun n => n ≠ "target" ∧ n ≠ "bystander"
+  let others := d.names.filter fun n => n ≠ "target".toList ∧ n ≠ "bystander".toList
   let tmp := (others.filter isTemporary).length
   let stray := others.length - tmp
-  let bst := if d.get "bystander" = some bystander then "ok" else "bad"
+  let bst := if d.get "bystander".toList = some bystander then "ok" else "bad"
   s!"target={target} tmp={tmp} stray={stray} bystander={bst}"
 
 def parseFaults (s : String) : Option Faults :=
@@ -78,13 +78,13 @@ def handle (line : String) : String :=
       let data ← decHex new
       let perm ← parseOctal perm
       let f ← parseFaults fault
-      let d0 : Dir ← if old == "none" then some [("bystander", bystander)] else do
+      let d0 : Dir ← if old == "none" then some [("bystander".toList, bystander)] else do
         let o ← decHex old
-        pure [("target", { content := o, mode := 0o640 }), ("bystander", bystander)]
-      let tmp := tmpName "0"
+        pure [("target".toList, { content := o, mode := 0o640 }), ("bystander".toList, bystander)]
+      let tmp := tmpName ['0']
       let (es, res) ← match api with
-        | "wfa" => some (writeFileAtomic tmp "target" data perm f)
-        | "mas" => some (marshalAndSave tmp "target" data f)
+        | "wfa" => some (writeFileAtomic tmp "target".toList data perm f)
+        | "mas" => some (marshalAndSave tmp "target".toList data f)
         | _ => none
       match kind with
       | "run" => if crash == "-" then some s!"res={showResult res} {showState (replay d0 es)}" else none
